@@ -250,9 +250,22 @@ fn rel(dir: &str, p: &str) -> String {
 /// Materialise in the calling thread's scratch directory `tag`, run `check generate` with the json
 /// format, compute the in-process expectation for the same root and compare.
 pub fn run_and_compare(p: &CProj, tag: &str) -> Result<Result<Compared, String>, Panic> {
+    run_and_compare_after(None, p, tag)
+}
+
+/// The same after a history: `earlier` was generated in the directory first, then its files were edited into `p`'s
+/// (only files that differ are written). What the second run leaves must be what a run in a clean directory leaves.
+pub fn run_and_compare_after(earlier: Option<&CProj>, p: &CProj, tag: &str) -> Result<Result<Compared, String>, Panic> {
     let dir = cli::thread_dir(tag);
-    cli::materialize(&dir, &p.project());
     let args: Vec<String> = ["--config-file", "graphql.config.yaml", "--output-format", "json", "check", "generate"].iter().map(|s| s.to_string()).collect();
+    match earlier {
+        None => cli::materialize(&dir, &p.project()),
+        Some(e) => {
+            cli::materialize(&dir, &e.project());
+            let _ = cli::run(&dir, &args, &[], Duration::from_secs(60));
+            cli::overwrite(&dir, &p.project());
+        }
+    }
     let r = cli::run(&dir, &args, &[], Duration::from_secs(60));
     let exp = match catch(|| expected(&dir, p)) {
         Err(pn) => return Err(pn),
